@@ -13,6 +13,16 @@
 #include <string_view>
 #include <ostream>
 
+#ifdef CTPG_VERIF
+// verification hooks (off by default): read-only access for table dumps and an
+// out-of-line handler that is called only when a cvector access is out of range
+namespace ctpg { namespace verif {
+    struct access;
+    void cvector_violation(const char* what, std::size_t idx, std::size_t size, std::size_t cap);
+}}
+#define CTPG_VERIF_CVECTOR_CHECK(ok, what, idx, size, cap) ((ok) ? void(0) : ::ctpg::verif::cvector_violation(what, idx, size, cap))
+#endif
+
 namespace ctpg
 {
 
@@ -155,20 +165,36 @@ namespace stdex
         constexpr size_type size() const { return current_size; }
         constexpr bool empty() const { return current_size == 0; }
         constexpr void reserve(size_type) const {};
+#ifdef CTPG_VERIF
+        constexpr const T& operator[](size_type idx) const { CTPG_VERIF_CVECTOR_CHECK(idx < current_size, "operator[] const", idx, current_size, N); return the_data[idx]; }
+        constexpr T& operator[](size_type idx) { CTPG_VERIF_CVECTOR_CHECK(idx < current_size, "operator[]", idx, current_size, N); return the_data[idx]; }
+#else
         constexpr const T& operator[](size_type idx) const { return the_data[idx]; }
         constexpr T& operator[](size_type idx) { return the_data[idx]; }
+#endif
         constexpr void push_back(const T& v) { the_data[current_size++] = v; }
         constexpr void emplace_back(T&& v) { the_data[current_size++] = std::move(v); }
+#ifdef CTPG_VERIF
+        constexpr const T& front() const { CTPG_VERIF_CVECTOR_CHECK(current_size > 0, "front const", 0, current_size, N); return the_data[0]; }
+        constexpr T& front() { CTPG_VERIF_CVECTOR_CHECK(current_size > 0, "front", 0, current_size, N); return the_data[0]; }
+        constexpr T& back() { CTPG_VERIF_CVECTOR_CHECK(current_size > 0, "back", current_size - 1, current_size, N); return the_data[current_size - 1]; }
+        constexpr const T& back() const { CTPG_VERIF_CVECTOR_CHECK(current_size > 0, "back const", current_size - 1, current_size, N); return the_data[current_size - 1]; }
+#else
         constexpr const T& front() const { return the_data[0]; }
         constexpr T& front() { return the_data[0]; }
         constexpr T& back() { return the_data[current_size - 1]; }
         constexpr const T& back() const { return the_data[current_size - 1]; }
+#endif
         constexpr const_iterator begin() const { return const_iterator(the_data); }
         constexpr const_iterator end() const { return const_iterator(the_data + current_size); }
         constexpr iterator begin() { return iterator(the_data); }
         constexpr iterator end() { return iterator(the_data + current_size); }
         constexpr void clear() { current_size = 0; }
+#ifdef CTPG_VERIF
+        constexpr void pop_back() { CTPG_VERIF_CVECTOR_CHECK(current_size > 0, "pop_back", 0, current_size, N); current_size--; }
+#else
         constexpr void pop_back() { current_size--; }
+#endif
         constexpr iterator erase(iterator first, iterator last)
         {
             if (!(first < last))
@@ -1864,6 +1890,9 @@ class parser<
     Limits
 >
 {
+#ifdef CTPG_VERIF
+    friend struct ::ctpg::verif::access;
+#endif
 private:
     using term_tuple_type = std::tuple<Terms...>;
     using nterm_tuple_type = std::tuple<NTerms...>;
@@ -3434,6 +3463,9 @@ namespace regex
     template<auto& Pattern>
     class expr
     {
+#ifdef CTPG_VERIF
+        friend struct ::ctpg::verif::access;
+#endif
     public:
         static const size32_t dfa_size = analyze_dfa_size(Pattern);
 
